@@ -544,6 +544,30 @@ def in1(F, R):
         else:
             R.ok("IN1", e.where(), "recursive descent guarded by !seen.contains(target); vertex marked before descending")
     R.floor("IN1", "recursive calls in the inspect descent", len(calls), 1, cand.where())
+    # the vertex the walk starts from is itself recorded as visited (otherwise a cycle back to it expands it twice):
+    # the descent marks its own parameter on entry, or whoever starts the descent marks the start vertex first
+    self_mark = any(m.body is cand and m.uncond and strip_sites(strip_load(m.args[1])) == ("param", 2) for m in marks)
+    if not self_mark:
+        starts = 0
+        for root in F.roots():
+            if root is cand or root.kind == "Closure" or not reachable_from(F, root, cand):
+                continue
+            rraw = Collector(F, depth=0).collect(root)
+            for e in rraw:
+                if not (e.kind == "call" and e.path == cand.path and len(e.args) > 1):
+                    continue
+                starts += 1
+                tgt = e.args[1]
+                pre = [m for m in rraw if m.kind == "call" and m.name == "insert" and "HashSet" in m.path and m.body is e.body and
+                       strip_sites(unload(m.args[1])) == strip_sites(unload(tgt)) and m.body.dominates(m.site, e.site)]
+                if pre:
+                    R.ok("IN1", e.where(), "the start vertex is marked visited before the descent starts")
+                else:
+                    R.bad("IN1", "IN1/Sodg::inspect/start-vertex-not-marked-visited", e.where(),
+                          "the vertex the walk starts from is never recorded as visited: on a cycle that leads back to it, it is "
+                          "expanded a second time and its edges are listed twice")
+        if not starts:
+            R.missing("IN1", "call that starts the inspect descent", b.where())
 
 
 def deref_item(e):
